@@ -3,6 +3,7 @@ import EaselModel.Buffer.Partition
 import EaselModel.Buffer.ReadFetch
 import EaselModel.Buffer.TokenOps
 import EaselModel.Buffer.KeepLines
+import EaselModel.Buffer.History
 /-! # C05 — the input buffer behaves as a byte array with a cursor in every mode and history
 
 Property theorems only; the lemmas are in `EaselModel/Buffer/*`. `Buf` is the model of `ESL_BUFFER`
@@ -109,6 +110,51 @@ theorem countline_pagesize_independent (b : Buf) (h : WF b) (hlt : b.pos < b.n) 
   show _ = memnewline (b.src.drop (b.base + b.pos))
   rw [d2, d3]; simp
 
+/-- **Refinement of whole histories** (the property at full strength, except pointer stability under stable anchors).
+    For every input `src`, every opener, every page size `ps ≥ 1`, and every history of the 14 public operations
+    (get/fetch line, get/fetch token, binary read, raw get/set, offset query and move, setting/raising plain and stable
+    anchors, nested and re-set anchors, rewinds) that respects the API contract `ValidHist P` (anchors are set at the
+    cursor or between the active anchor and the cursor; `SetOffset` targets a byte of the input ahead of the cursor or
+    at/after the active anchor; `Set` stays within one guaranteed page `P ≤ ps` of the cursor): the sequence of
+    (status, returned bytes, offset afterwards) observed on the model of `esl_buffer.c` equals that of the abstract
+    specification "bytes + cursor" (`specStep`: `specLine`, `specTok`, `specRead` on the suffix at the cursor).
+    In particular every reported offset is the true offset. -/
+theorem history_spec (mode : Mode) (ps : Nat) (src : Bytes) (hps : 0 < ps) (P : Nat) (hP : P ≤ ps)
+    (ops : List Op) (hv : ValidHist P (AState.init src) ops) :
+    obsRun { b := openBuf mode ps src } ops = specRun (AState.init src) ops :=
+  EaselModel.Buffer.history_spec mode ps src hps P hP ops hv
+
+/-- **Mode and page-size independence**: two openings of the same bytes, in any two of the six modes and with any two
+    page sizes, give identical results (statuses, lines, tokens, byte counts, EOL/EOF outcomes, offsets) on every
+    valid history. -/
+theorem history_mode_independent (src : Bytes) (m₁ m₂ : Mode) (ps₁ ps₂ P : Nat) (h₁ : 0 < ps₁) (h₂ : 0 < ps₂)
+    (hP₁ : P ≤ ps₁) (hP₂ : P ≤ ps₂) (ops : List Op) (hv : ValidHist P (AState.init src) ops) :
+    obsRun { b := openBuf m₁ ps₁ src } ops = obsRun { b := openBuf m₂ ps₂ src } ops :=
+  EaselModel.Buffer.history_mode_independent src m₁ m₂ ps₁ ps₂ P h₁ h₂ hP₁ hP₂ ops hv
+
+/-- Along every valid history no operation ends in `fault` (out-of-bounds access, cursor outside the window, anchor
+    beyond the cursor, loop out of fuel) nor in an internal error: the statuses are `eslOK`, `eslEOF`, `eslEOL` only. -/
+theorem history_no_fault (mode : Mode) (ps : Nat) (src : Bytes) (hps : 0 < ps) (P : Nat) (hP : P ≤ ps)
+    (ops : List Op) (hv : ValidHist P (AState.init src) ops) :
+    ∀ o ∈ obsRun { b := openBuf mode ps src } ops, o.st = .ok ∨ o.st = .eof ∨ o.st = .eol :=
+  EaselModel.Buffer.history_no_fault mode ps src hps P hP ops hv
+
+/-- **Re-reading under an anchor**: in any state reached by a valid history (`R P a s`), while an anchor is set at
+    offset `A`, every `SetOffset o` with `A ≤ o` inside the input succeeds and the bytes then read at `o` are the
+    bytes of the input at `o` — in every mode, also when the stream has long moved on. -/
+theorem reread_under_anchor (P : Nat) (a : AState) (s : Sess) (r : R P a s) (A o k : Nat)
+    (hA : a.anchor = some A) (hle : A ≤ o) (hlt : o < a.src.length) :
+    Valid P a (.setOffset o) ∧
+    obsOf (.setOffset o) (s.step (.setOffset o)).1 (s.step (.setOffset o)).2 = ⟨.ok, [], o⟩ ∧
+    (let s' := (s.step (.setOffset o)).2
+     ((s'.step (.read k)).1.st, (s'.step (.read k)).1.bytes) =
+       ((specRead ⟨a.src, o⟩ k).1, (specRead ⟨a.src, o⟩ k).2.1)) :=
+  EaselModel.Buffer.reread_under_anchor P a s r A o k hA hle hlt
+
+/-- One step: any of the 14 operations, from any state related to a specification state, within the contract,
+    yields the specification's observation and a related state again (anchor bookkeeping included). -/
+theorem step_simulates (P : Nat) (op : Op) : SimStep P op := sim_all P op
+
 /-- FULL STATEMENT (false of the code): while a stable anchor is in force no `buffer_refill` moves or reallocates the
     window, i.e. `∀ b nmin, b.anchor = some 0 → (refill b nmin).2.memgen = b.memgen`.
     PROVED PART: it holds as long as the next page still fits behind the loaded bytes. -/
@@ -129,6 +175,11 @@ example : (getLine (openBuf .stream 3 [97, 13, 10, 98])).1.bytes = [97] := by de
 example : (openBuf .stream 2 [97, 98, 99, 100]).pos < (openBuf .stream 2 [97, 98, 99, 100]).n := by decide
 example : (getToken (openBuf .stream 3 [32, 32, 13, 10, 98, 10]) [32]).1.st = .eol := by decide
 example : (specLines [97, 13, 10, 98]).map (·.body) = [[97], [98]] := by decide
+-- a history inside the contract: anchor, read a line, rewind to the anchor, read it again, raise
+example : ValidHist 1 (AState.init [97, 13, 10, 98]) [.setAnchor 0, .getLine, .setOffset 0, .getLine, .raiseAnchor 0] :=
+  ⟨⟨Nat.le_refl _, Or.inl rfl⟩, trivial, ⟨by decide, Or.inr ⟨0, rfl, Nat.le_refl _⟩⟩, trivial, trivial, trivial⟩
+example : (obsRun { b := openBuf .stream 1 [97, 13, 10, 98] } [.setAnchor 0, .getLine, .setOffset 0, .getLine, .raiseAnchor 0]).map (·.bytes)
+    = [[], [97], [], [97], []] := by decide
 example : ∃ b : Buf, b.anchor = some 0 ∧ b.n + b.pagesize ≤ b.balloc :=
   ⟨{ (openBuf .stream 2 [97]) with anchor := some 0, balloc := 8 }, by decide⟩
 
